@@ -11,7 +11,18 @@ def verdict(it, cert):
 
 
 def run(out, explore=0):
-    L.standard_run(out, "C05", explore or 150, want=("c05",), verdict=verdict, with_multi_start=True)
+    items, certs = L.standard_run(out, "C05", explore or 150, want=("c05",), verdict=verdict, with_multi_start=True)
+    # correspondence leg: the printer model (V.Puml.Linearise: networkx dfs_successors, reversed successor order, PATH nodes,
+    # operator/event/kill rendering) applied to the PUMLGraph captured at write_puml_string must give exactly the emitted tokens
+    if out.coverage.get("discharged"):
+        n, mism, badhead, fails = L.coq_linearise(items)
+        out.coverage["printer_leg"] = dict(graphs=n, model_mismatches=len(mism), bad_heads=len(badhead), coq_failures=len(fails))
+        out.coverage["traces_validated_against_impl"] = n
+        if (mism or badhead or fails) and not out.violations:
+            k = (mism or badhead or [None])[0]
+            out.violation({"kind": "correspondence-broken",
+                           "relation": "tokens of PUMLGraph.write_puml_string == V.Puml.Linearise.linearise (exported graph)",
+                           "first": L.describe(items[k]) if k is not None else None, "coq_failures": fails[:2]}, no_failing_input=True)
 
 
 def replay(out, rp):
